@@ -21,7 +21,7 @@ import (
 // exactly that body.
 
 type apiIOCase struct {
-	Verb  int `json:"verb"` // 0 POST json, 1 PUT json, 2 PATCH json, 3 GET, 4 DELETE
+	Verb  int `json:"verb"` // 0 POST json, 1 PUT json, 2 PATCH json, 3 GET, 4 DELETE, 5 POST multipart, 6 PUT multipart, 7 PATCH multipart, 8 generic with body, 9 generic without body
 	Evals int `json:"evals"`
 	Build int `json:"build"` // how many MonadIOs are built from the same API function
 	Body  int `json:"body"`
@@ -33,6 +33,10 @@ type countRT struct {
 }
 
 func (c *countRT) RoundTrip(req *http.Request) (*http.Response, error) {
+	// like net/http's transport: a request whose context is already done is not sent
+	if err := req.Context().Err(); err != nil {
+		return nil, err
+	}
 	b := ""
 	if req.Body != nil {
 		raw, _ := io.ReadAll(req.Body)
@@ -55,8 +59,13 @@ func runAPIIO(c apiIOCase) (key, msg string) {
 		serCalls++
 		return bytes.NewReader([]byte(fmt.Sprintf(`{"b":%v,"call":%d}`, body, serCalls))), nil
 	}
+	api.RequestSerializerForMultipart = func(f *network.MultipartForm) (io.Reader, string, error) {
+		serCalls++
+		return bytes.NewReader([]byte(fmt.Sprintf(`{"b":%v,"call":%d}`, f.Value["b"][0], serCalls))), "multipart/x-test", nil
+	}
 	type resp = map[string]interface{}
-	methods := []string{"POST", "PUT", "PATCH", "GET", "DELETE"}
+	methods := []string{"POST", "PUT", "PATCH", "GET", "DELETE", "POST", "PUT", "PATCH", "OPTIONS", "HEAD"}
+	form := &network.MultipartForm{Value: map[string][]string{"b": {fmt.Sprint(c.Body)}}}
 	var ios []func() error
 	p, st := vlib.Try(func() {
 		for b := 0; b < c.Build; b++ {
@@ -74,8 +83,23 @@ func runAPIIO(c apiIOCase) (key, msg string) {
 			case 3:
 				m := network.APIMakeGet[resp](api, "x")(nil, tgt)
 				ios = append(ios, func() error { return m.Eval().Err })
-			default:
+			case 4:
 				m := network.APIMakeDelete[resp](api, "x")(nil, tgt)
+				ios = append(ios, func() error { return m.Eval().Err })
+			case 5:
+				m := network.APIMakePostMultipartBody[resp](api, "x")(nil, form, tgt)
+				ios = append(ios, func() error { return m.Eval().Err })
+			case 6:
+				m := network.APIMakePutMultipartBody[resp](api, "x")(nil, form, tgt)
+				ios = append(ios, func() error { return m.Eval().Err })
+			case 7:
+				m := network.APIMakePatchMultipartBody[resp](api, "x")(nil, form, tgt)
+				ios = append(ios, func() error { return m.Eval().Err })
+			case 8:
+				m := network.APIMakeDoNewRequestWithBodySerializer[int, resp](api, "OPTIONS", "x", "application/json", api.RequestSerializerForJSON)(nil, c.Body, tgt)
+				ios = append(ios, func() error { return m.Eval().Err })
+			default:
+				m := network.APIMakeDoNewRequest[resp](api, "HEAD", "x")(nil, tgt)
 				ios = append(ios, func() error { return m.Eval().Err })
 			}
 		}
@@ -86,7 +110,7 @@ func runAPIIO(c apiIOCase) (key, msg string) {
 	if serCalls != 0 || len(rt.bodies) != 0 {
 		return "C11/simpleapi/not-lazy", fmt.Sprintf("building %d MonadIO(s) ran the serializer %d times and sent %d requests before any evaluation", c.Build, serCalls, len(rt.bodies))
 	}
-	hasBody := c.Verb <= 2
+	hasBody := c.Verb <= 2 || (c.Verb >= 5 && c.Verb <= 8)
 	n := 0
 	for e := 0; e < c.Evals; e++ {
 		for i, ev := range ios {
@@ -122,10 +146,10 @@ func TestSimpleAPIMonadIO(t *testing.T) {
 		t.Skip()
 	}
 	vlib.Check(t, "simpleapi", 1500, 15000, func(t *rapid.T) {
-		c := apiIOCase{Verb: rapid.IntRange(0, 4).Draw(t, "verb"), Evals: rapid.IntRange(0, 3).Draw(t, "evals"),
+		c := apiIOCase{Verb: rapid.IntRange(0, 9).Draw(t, "verb"), Evals: rapid.IntRange(0, 3).Draw(t, "evals"),
 			Build: rapid.IntRange(1, 3).Draw(t, "build"), Body: rapid.IntRange(0, 99).Draw(t, "body")}
 		vlib.S().Eval("simpleapi")
-		if c.Evals >= 2 && c.Verb <= 2 {
+		if c.Evals >= 2 && (c.Verb <= 2 || (c.Verb >= 5 && c.Verb <= 8)) {
 			vlib.S().NonTrivial("simpleapi", fmt.Sprintf("%+v", c))
 		}
 		if key, msg := runAPIIO(c); key != "" {
